@@ -20,7 +20,7 @@ Ed25519 (`sigOkUnder` is an oracle bit per key), f64 rounding of a float-valued 
 Core-only: linked into `drv_token`.
 -/
 namespace ScionVerif.Token
-open ScionVerif.Generated.Token (FieldTy expUnitNs)
+open ScionVerif.Generated.Token (FieldTy expUnitNs bearerPrefix)
 
 abbrev KeyId := Nat
 
@@ -336,6 +336,17 @@ def family (a : String) : Nat :=
   else if a == "HS256" || a == "HS384" || a == "HS512" then 0
   else 1
 
+/-- `JwksKeyStore::do_fetch` (snap-control `server/jwks_key_store.rs`) applied to one fetched JWKS document,
+in document order: an entry without `kid` is skipped, an entry whose `kid` is already cached *replaces*
+the cached key - so of several entries with the same `kid` the LAST one is the key the store serves
+(also after any number of refreshes of the same document).  The result is searched from the front. -/
+def docEntry : Option String × KeyId → Option (String × KeyId)
+  | (some kid, key) => some (kid, key)
+  | (none, _) => none
+
+def storeOfDocument (doc : List (Option String × KeyId)) : List (String × KeyId) :=
+  (doc.filterMap docEntry).reverse
+
 /-- key selection: `(Some(kid), Some(store)) => store.await_key(kid)` else the static key -/
 def selectKey (keys : Keys) (kid : Option String) : Except Err KeyId :=
   match kid, keys.jwks with
@@ -406,5 +417,12 @@ def lifetime (exp : Nat) (nowNs : Nat) : Grant :=
   if i64Max < exp then .panic
   else if nowNs ≤ exp * expUnitNs then .granted (exp * expUnitNs - nowNs)
   else .past
+
+/-- `extract_bearer_token` (snap-control `server/auth.rs`) on the text of the `Authorization` header
+value: `auth_str.strip_prefix("Bearer ")`, the remainder is the token, verbatim (no trimming, the
+scheme is matched case-sensitively); `none` = 401 without consulting the verifier.  The prefix literal
+is re-extracted (`bearerPrefix`). -/
+def extractBearer (v : List Char) : Option (List Char) :=
+  if bearerPrefix.toList.isPrefixOf v then some (v.drop bearerPrefix.toList.length) else none
 
 end ScionVerif.Token
